@@ -166,6 +166,7 @@ func (ft *ftrans) joinIf(s *ast.IfStmt, A, B []ast.Stmt, hasElse bool, e *env) {
 	for _, t := range targets {
 		if t.j < 0 {
 			e.st[t.v].sinit = ends[0].st[t.v].sinit || ends[1].st[t.v].sinit
+			e.st[t.v].carry = ends[0].st[t.v].carry && ends[1].st[t.v].carry
 			continue
 		}
 		st := e.st[t.v]
